@@ -348,8 +348,133 @@ def unhashable(out, stats):
     close_all()
 
 
+# ----------------------------------------------------------------------------- value layer: chains, every assignment
+
+XCFG = {
+    "weights": {"eval": 1}, "compare": ["values", "graph", "refgraph"],
+    "rule": "value layer: chains top -> ... -> leaf of 3 and 4 cells, the leaf reading ONE reference by name / by each "
+            "attribute-path form (own space, other space; model-level: implementation only), under EVERY assignment of "
+            "the cached flag (2^n), flags given at creation or switched after the first evaluation; history: evaluate, "
+            "ask again, change the reference, evaluate top and middle, delete it, evaluate, re-create it, evaluate",
+}
+CHAIN_FORMS = ("rn", "ra-own", "ra-other", "rg1", "rg2", "rg4")
+
+
+def chain_case(n, form, leaf_space, flags, flip):
+    """cells 0 = leaf ... n-1 = top, all with one parameter; flags[i] = cached flag of cells i; flip: every cells is
+    created cached and the flags are switched to `flags` after the first round of evaluations"""
+    P0 = ("p", 0)
+    own, other = (0, 2) if leaf_space == 0 else (2, 0)
+    if form == "rn":
+        read, rid = ("rn", own), own
+    elif form == "ra-own":
+        read, rid = ("ra", own), own
+    elif form == "ra-other":
+        read, rid = ("ra", other), other
+    else:
+        read, rid = ("rg", 4, int(form[2])), 4
+    cells = [{"id": 0, "nparams": 1, "space": leaf_space, "body": ("add", read, P0)}]
+    for i in range(1, n):
+        cells.append({"id": i, "nparams": 1, "space": 0, "body": ("add", ("call", i - 1, [P0]), ("lit", 10 ** i))})
+    for c, f in zip(cells, flags):
+        c.update(cached=True if flip else f, allow_none=False)
+    if rid == 4:
+        cells[0]["glob"] = [4, 5]
+    top, mid = str(n - 1), str(n - 2)
+    ev = [["eval", top, "1"], ["eval", mid, "2"], ["eval", top, "1"]]
+    ops = list(ev)
+    if flip:
+        ops += [["setcached", str(i), "0"] for i, f in enumerate(flags) if not f] + ev
+    ops += [["setref", str(rid), "7"]] + ev + [["delref", str(rid)], ["eval", top, "1"], ["setref", str(rid), "2"]] + ev
+    return {"cells": cells, "refs": {0: 1, 1: 2, 2: 3, 3: 4, 4: 5, 5: 6}, "n_rn": 2, "maxdepth": None, "ops": ops,
+            "label": "chain/%d cells/%s/leaf in space %d/%s/%s" % (
+                n, form, leaf_space, "flip" if flip else "static", "".join("c" if f else "u" for f in flags))}
+
+
+def chain_cases(ctx):
+    """the cases that go through the Lean correspondence (modelled forms; one case per assignment) and, for every
+    (length, form, leaf space, static / flip), the all-cached base case on which `chain_oracle` runs EVERY assignment"""
+    cases = []
+    for n in (3, 4):
+        allf = list(itertools.product([True, False], repeat=n))
+        for form in CHAIN_FORMS:
+            for leaf_space in (0, 1):
+                for flip in (False, True):
+                    cases.append(chain_case(n, form, leaf_space, allf[0], flip))       # base: the oracle enumerates
+        # correspondence: every assignment with a cached top (the ones in which a value can go stale) for the
+        # attribute-path forms; quick: 3 cells all of them, 4 cells those with two or more uncached cells in a row
+        for form in ("ra-own", "ra-other", "rn"):
+            for fl in allf[1:]:
+                if not fl[-1]:
+                    continue
+                row = max(len(r) for r in "".join("c" if f else "u" for f in fl).split("c"))
+                if ctx.tier != "thorough" and (n == 4 and row < 2 or form == "rn" and row < 2):
+                    continue
+                cases.append(chain_case(n, form, (n + len(form)) % 2, fl, flip=(sum(fl) + n) % 2 == 0))
+    return cases
+
+
+def _chain_results(case):
+    from ..execworld import ExecImpl
+    impl = ExecImpl(case["cells"], case["refs"], case["n_rn"], None, log=False)
+    try:
+        res = []
+        for op in case["ops"]:
+            r = impl.apply(op)
+            if op[0] == "eval":
+                res.append(r.split(" tb=")[0])
+            for cid, c in impl.cells.items():
+                if not c._impl.is_cached and len(c._impl.data):
+                    res.append("UNCACHED-HOLDS c%d" % cid)
+        return res
+    finally:
+        impl.close()
+
+
+def chain_oracle(case, recs, out, stats):
+    """on the all-cached base case of a chain: the same history under EVERY other assignment gives the same results"""
+    from .. import exec_props as X
+    m = re.match(r"chain/(\d) cells/(\S+)/leaf in space (\d)/(static|flip)/(c+)$", case.get("label", ""))
+    if not m:
+        # a case of one assignment (replayed, or a correspondence case): compare it with its all-cached twin
+        m2 = re.match(r"chain/(\d) cells/(\S+)/leaf in space (\d)/(static|flip)/([cu]+)$", case.get("label", ""))
+        if not m2:
+            return False
+        n, form, ls, flip = int(m2.group(1)), m2.group(2), int(m2.group(3)), m2.group(4) == "flip"
+        todo = [tuple(ch == "c" for ch in m2.group(5))]
+    else:
+        n, form, ls, flip = int(m.group(1)), m.group(2), int(m.group(3)), m.group(4) == "flip"
+        todo = list(itertools.product([True, False], repeat=n))[1:]
+    base = chain_case(n, form, ls, (True,) * n, flip)
+    want = [r for r, op in zip(_chain_results(base), [o for o in base["ops"] if o[0] == "eval"])]
+    for fl in todo:
+        c = chain_case(n, form, ls, fl, flip)
+        got = [r for r in _chain_results(c)]
+        stats["chain_replays"] += 1
+        bad = [r for r in got if r.startswith("UNCACHED-HOLDS")]
+        if bad:
+            out.fail("an uncached cells holds values (%s)" % bad[0], X.case_json(c))
+            continue
+        if got != want:
+            i = next((k for k, (a, b) in enumerate(zip(got, want)) if a != b), None)
+            evs = [o for o in c["ops"] if o[0] == "eval"]
+            out.fail("results differ between the cached-flag assignment %s and all-cached: %s gives %s vs %s" % (
+                "".join("c" if f else "u" for f in fl), " ".join(evs[i]) if i is not None else "?",
+                got[i] if i is not None else got, want[i] if i is not None else want), X.case_json(c))
+    return len(todo) > 1
+
+
+def value_layer(ctx, out):
+    from .. import exec_props as X
+    sub = core.Outcome()
+    X.run_family(ctx, sub, XCFG, chain_oracle, 0, 0, corpus_name="C09exec", structured=chain_cases(ctx))
+    S.merge(out, sub)
+    return sub.coverage
+
+
 def run(ctx, out):
     stats = collections.Counter()
+    vcov = value_layer(ctx, out)
     n = ctx.n(48, 600)
     allassign = list(itertools.product([True, False], repeat=len(W.CELLS)))
     nontrivial, samples = 0, []
@@ -376,13 +501,18 @@ def run(ctx, out):
     unhashable(out, stats)
     out.coverage.update({"evaluations": len(hists) * 5, "programs": len(hists), "distinct_nontrivial": nontrivial,
                          "rule": RULE, "samples": samples, "input_distribution": dict(stats),
-                         "exhaustive": ctx.tier == "thorough", "traces_validated_against_impl": len(hists)})
+                         "exhaustive": ctx.tier == "thorough", "traces_validated_against_impl": len(hists),
+                         "value_layer_chains": vcov})
 
 
 def replay(ctx, payload, out):
     h = payload.get("history") or {}
     if h.get("scenario") == "unhashable":
         unhashable(out, collections.Counter())
+        return
+    if "cells_raw" in h:
+        from .. import exec_props as X
+        X.replay_family(ctx, payload, out, XCFG, chain_oracle)
         return
     if "ops" in h:
         ops = S.ops_from_json(h)
